@@ -446,7 +446,11 @@ theorem hwCore_iso (w : W) (c : Cli) : ∃ ext, CliIso w c (ClientPf.hwCore w c)
     split
     · exact ⟨_, CliIso.sysOnly w c _ _ rfl rfl rfl (fun _ => rfl) rfl (Or.inr rfl)⟩
     · split
-      · exact ⟨_, CliIso.sysOnly w c _ _ rfl rfl rfl (fun h => h) rfl (Or.inr rfl)⟩
+      · have h := CliIso.sysOnly w c { c with toBuf := [] }
+          (Sys.write c.fd c.toBuf false (decide (capOf w c.fd < (c.toBuf.length : Int)))) rfl rfl rfl (fun h => h) rfl (Or.inr rfl)
+        refine ⟨_, h.kept, h.id, h.fd, h.quit, h.enq, h.sys, h.sysfd, ?_, h.buf⟩
+        intro fd hfd
+        exact capOf_setCap_ne _ _ _ _ hfd
       · split
         · exact ⟨_, CliIso.sysOnly w c _ _ rfl rfl rfl (fun _ => rfl) rfl (Or.inr rfl)⟩
         · have h := CliIso.sysOnly w c { c with toBuf := c.toBuf.drop (min (capOf w c.fd).toNat c.toBuf.length) }
@@ -1796,7 +1800,8 @@ theorem clientPass_unwritable (w : W) (c : Cli) (e : Option FdEnv) (c' : Cli) (h
     visible in the model only as the `blocks` flag of the logged call -/
 theorem handleWrite_quit (w : W) (c : Cli) (hq : c.quit = true) (hne : c.toBuf ≠ []) (hcap : ¬ capOf w c.fd < 0) :
     handleWrite w c =
-      ({ w with sys := w.sys ++ [Sys.write c.fd c.toBuf false (decide (capOf w c.fd < (c.toBuf.length : Int)))] },
+      (setCap { w with sys := w.sys ++ [Sys.write c.fd c.toBuf false (decide (capOf w c.fd < (c.toBuf.length : Int)))] } c.fd
+         (if capOf w c.fd < (c.toBuf.length : Int) then 0 else capOf w c.fd - (c.toBuf.length : Int)),
        { c with blocking := true, toBuf := [] }) := by
   unfold handleWrite
   have he : c.toBuf.isEmpty = false := by simpa using hne
